@@ -167,3 +167,9 @@ pub proof fn lemma_repeat_doc_hardline(n: nat, unit: int)
     reveal_with_fuel(tr, 3); reveal_with_fuel(nest_ok, 3); reveal_with_fuel(plain_lines, 3);
     if n > 0 { lemma_repeat_doc_hardline((n - 1) as nat, unit); }
 }
+
+// ===== G : the optional-parenthesis guard (C01 / C04) =====
+/// what `optional_paren` builds: a group that is the bare body when flat and `d0 NL body NL d1` (body nested) when broken
+pub open spec fn optional_paren_doc(body: DocV, indent: int, d0: Seq<char>, d1: Seq<char>) -> DocV {
+    group(cat(nest(indent, cat(flat_alt(cat(txt(d0), DocV::Hardline), DocV::Nil), body)), flat_alt(cat(DocV::Hardline, txt(d1)), DocV::Nil)))
+}
